@@ -221,6 +221,18 @@ func sameAccess(a, b ssa.Value) bool {
 	case *ssa.Const:
 		y, ok := b.(*ssa.Const)
 		return ok && x.Value != nil && y.Value != nil && x.Value.ExactString() == y.Value.ExactString()
+	case *ssa.IndexAddr:
+		y, ok := b.(*ssa.IndexAddr)
+		return ok && sameAccess(x.X, y.X) && sameAccess(x.Index, y.Index)
+	case *ssa.MakeInterface:
+		y, ok := b.(*ssa.MakeInterface)
+		return ok && sameAccess(x.X, y.X)
+	case *ssa.ChangeInterface:
+		y, ok := b.(*ssa.ChangeInterface)
+		return ok && sameAccess(x.X, y.X)
+	case *ssa.Convert:
+		y, ok := b.(*ssa.Convert)
+		return ok && types.Identical(x.Type(), y.Type()) && sameAccess(x.X, y.X)
 	}
 	return false
 }
